@@ -7,7 +7,7 @@ EXTENDS Layout, IOUtils
 Traces == JsonDeserialize(IOEnv.TRACE_FILE)
 VARIABLES tid, pc
 TR == Traces[tid]
-TraceInit == tid \in 1..Len(Traces) /\ pc = "eval" /\ words = Traces[tid].words /\ seps = Traces[tid].sepsA /\ cont = Traces[tid].cont /\ edits = 0
+TraceInit == tid \in 1..Len(Traces) /\ pc = "eval" /\ words = Traces[tid].words /\ seps = Traces[tid].sepsA /\ cont = Traces[tid].cont /\ edits = 0 /\ inner = FALSE
 TraceNext == pc = "eval" /\ pc' = "done" /\ UNCHANGED <<vars, tid>>
 TraceSpec == TraceInit /\ [][TraceNext]_<<vars, tid, pc>>
 TraceReport == pc = "done" => PrintT(ToJson(<<"R", TR.id, Admissible(TR.words, TR.sepsA, TR.cont) /\ Admissible(TR.words, TR.sepsB, TR.cont), TR.same>>))
